@@ -41,7 +41,8 @@ class Table(dict):
         raise NotImplementedError()
 
     def get(self, x):
-        v = self._df.get(x)
+        # a column read must see the rows that are still in the insert buffer
+        v = self.get_dataframe().get(x)
         return KLONG_UNDEFINED if v is None else v.values
 
     def set(self, x, y):
